@@ -223,6 +223,19 @@ func runR164(c *Ctx) {
 			continue
 		}
 		op := ops[0]
+		// the tracked offset: the field whose value is the offset argument of the toUnvalidated* call that opens a replacement
+		offName := ""
+		allInstrs(fn, func(ins ssa.Instruction) {
+			if cl, ok := ins.(*ssa.Call); ok && cl.Call.IsInvoke() && (cl.Call.Method.Name() == "toUnvalidatedReader" || cl.Call.Method.Name() == "toUnvalidatedChunkReader") {
+				if lf, base := loadedField(cl.Call.Args[0]); lf != nil && base == ssa.Value(fn.Params[0]) {
+					offName = lf.Name()
+				}
+			}
+		})
+		if offName == "" {
+			c.Fail(name, "offset-bookkeeping", c.Pos(fn.Pos()), "replacements are not opened at an offset tracked in a field of the reader")
+			continue
+		}
 		// the data value: Extract #0 of op
 		var data ssa.Value
 		for _, r := range *op.Referrers() {
@@ -236,7 +249,7 @@ func runR164(c *Ctx) {
 		}
 		isAdvance := func(st *ssa.Store) (isOff bool, ok bool) {
 			f := fieldOf(st.Addr)
-			if f == nil || f.Name() != "off" {
+			if f == nil || f.Name() != offName {
 				return false, false
 			}
 			bo, isBo := st.Val.(*ssa.BinOp)
@@ -244,7 +257,7 @@ func runR164(c *Ctx) {
 				return true, false
 			}
 			lf, _ := loadedField(bo.X)
-			if lf == nil || lf.Name() != "off" {
+			if lf == nil || lf.Name() != offName {
 				return true, false
 			}
 			// increment: int64(n) or int64(len(chunk))
@@ -289,7 +302,7 @@ func runR164(c *Ctx) {
 					}
 					if cl, ok := ev.Ins.(*ssa.Call); ok && cl.Call.IsInvoke() && (cl.Call.Method.Name() == "toUnvalidatedReader" || cl.Call.Method.Name() == "toUnvalidatedChunkReader") {
 						lf, _ := loadedField(cl.Call.Args[0])
-						if lf == nil || lf.Name() != "off" {
+						if lf == nil || lf.Name() != offName {
 							setBad("the replacement is not opened at the tracked offset", cl.Pos())
 						}
 						if st == 1 && !isBytes(data) {
@@ -317,9 +330,9 @@ func runR164(c *Ctx) {
 			c.Pass(name, "offset-bookkeeping", c.Pos(op.Pos()), "the tracked offset advances by exactly what is handed out, before it is handed out or used to resume")
 		}
 		// nobody else writes off
-		for _, fs := range fieldStoresIn(c.pkgFuncs(bufferRel), n, "off") {
-			okW := fs.fn == fn || fs.fn.Name() == "new"+string(typ[0]-32)+typ[1:]
-			c.Check(okW, FuncName(fs.fn), "off-writer", c.Pos(fs.st.Pos()), "written by Read / the constructor", typ+".off is written outside Read and the constructor")
+		for _, fs := range fieldStoresIn(c.pkgFuncs(bufferRel), n, offName) {
+			okW := fs.fn == fn || fs.fn.Signature.Recv() == nil
+			c.Check(okW, FuncName(fs.fn), "off-writer", c.Pos(fs.st.Pos()), "written by Read / the constructor", typ+"."+offName+" is written outside Read and the constructor")
 		}
 	}
 }
